@@ -1,9 +1,9 @@
 """C20 -- scoring does not mutate or leak state between calls (partial by nature; snapshots over call sequences)."""
 import coqfmt as cf
 
-RULE = ("cases = random call sequences (6-10 calls of fit / score) over 2-3 importance objects (neighbor K=1 and K=2, "
+RULE = ("cases = random call sequences (6-10 calls of fit / score / score with an explicit partial `world`) over 2-3 importance objects (neighbor K=1 and K=2, "
         "bruteforce, montecarlo) that SHARE feature arrays, label arrays, a provenance, a distance callable with its "
-        "matrix, one utility and its model (KNN, random-splitter tree, SGD and a uniform DummyClassifier drawing from the global generator, and an "
+        "matrix, one utility (accuracy, ROC-AUC, equalized-odds difference over a discrete feature column whose layout differs between the two datasets, or a JointUtility) and its model (KNN, random-splitter tree, SGD and a uniform DummyClassifier drawing from the global generator, and an "
         "ExtendedModelMixin model with metadata); before and after every call the bytes of every caller-owned object "
         "are compared (arrays, Provenance.data and unit lists, the distance matrix, the pickled model parameters and "
         "attribute names of the utility's model, metadata frame); repeated neighbor / bruteforce scores must be "
@@ -33,8 +33,16 @@ def gen(rng, tier):
                 calls.append(["fit", w, rng.randrange(2)])      # which of the two datasets
                 fitted.add(w)
             else:
-                calls.append(["score", w, rng.randrange(2)])
+                # a third of the score calls pass an explicit `world` (some units switched off): same obligations --
+                # nothing the caller owns may change, and later calls must not see it
+                calls.append(["scorew" if rng.random() < 0.34 else "score", w, rng.randrange(2)])
+        utility = ["accuracy", "eod", "auc", "accuracy", "joint", "accuracy", "eod"][k % 7]
+        if utility == "eod":
+            # the equalized-odds utility rejects single-class validation samples, which montecarlo's bootstrapped mean score
+            # draws from a 3-point validation set: not a call sequence this property is about
+            methods = [{"montecarlo": "bruteforce", "neighbor2": "neighbor"}.get(m, m) for m in methods]
         cases.append({"methods": methods, "calls": calls, "model": ["knn", "dummy", "sgd", "ext", "rtree", "dummy"][k % 6],
+                      "utility": utility,
                       "prov": rng.choice(["default", "grouped"]), "seed": rng.randrange(1 << 20)})
     return cases
 
@@ -48,7 +56,7 @@ def run_impl(c):
     from sklearn.neighbors import KNeighborsClassifier
     from datascope.importance.common import ExtendedModelMixin
     from datascope.importance.shapley import ShapleyImportance
-    from datascope.importance.utility import SklearnModelAccuracy
+    from datascope.importance.utility import SklearnModelAccuracy, SklearnModelRocAuc, SklearnModelEqualizedOddsDifference, JointUtility
     from props import rtcommon
 
     class ExtModel(ExtendedModelMixin, ClassifierMixin, BaseEstimator):
@@ -79,9 +87,30 @@ def run_impl(c):
             return self.inner_.predict_proba(X)
 
     NR, NV = (4, 2) if "neighbor2" in c["methods"] else (6, 3)
+    if c.get("utility") == "eod":
+        NR, NV = 6, 8        # equalized odds needs both groups and both classes among the validation points to say anything
     data = [rtcommon.dataset(c["seed"] + i, n=NR, nv=NV, classes=2) for i in range(2)]
-    model = ExtModel() if c["model"] == "ext" else rtcommon.make_model(c["model"])
-    util = SklearnModelAccuracy(model)
+    # a third, discrete feature column (the "sensitive" attribute of the equalized-odds utility); its layout differs between the
+    # two datasets although their validation sets have the same length
+    data = [(np.hstack([X, ((np.arange(len(X)) * (i + 1) + i) // (i + 1) % 2).reshape(-1, 1).astype(float)]), y,
+             np.hstack([Xv, ((np.arange(len(Xv)) + i * (1 + np.arange(len(Xv)) // 2)) % 2).reshape(-1, 1).astype(float)]), yv)
+            for i, (X, y, Xv, yv) in enumerate(data)]
+
+    def make_model():
+        return ExtModel() if c["model"] == "ext" else rtcommon.make_model(c["model"])
+
+    def make_util(m):
+        kind = c.get("utility", "accuracy")
+        if kind == "auc":
+            return SklearnModelRocAuc(m)
+        if kind == "eod":
+            return SklearnModelEqualizedOddsDifference(m, sensitive_features=2)
+        if kind == "joint":
+            return JointUtility(SklearnModelAccuracy(m), SklearnModelRocAuc(m), weights=[0.5, 2.0])
+        return SklearnModelAccuracy(m)
+
+    model = make_model()
+    util = make_util(model)
     meta = [pd.DataFrame({"m": np.arange(NR)}), pd.DataFrame({"m": np.arange(NR) + 10})] if c["model"] == "ext" else [None, None]
     meta_v = [pd.DataFrame({"m": np.arange(NV)}), pd.DataFrame({"m": np.arange(NV) + 10})] if c["model"] == "ext" else [None, None]
     provs = [rtcommon.make_provenance(c["prov"], NR) for _ in range(2)]
@@ -111,13 +140,38 @@ def run_impl(c):
 
     checks = {"inputs_unchanged": True, "model_never_fitted": True, "repeat_equal": True, "no_leak_from_other_calls": True}
     last_fit = {}
+    n_world = [0]
     with warnings.catch_warnings():
         warnings.simplefilter("ignore")
-        for kind, w, di in c["calls"]:
+        for ci, (kind, w, di) in enumerate(c["calls"]):
             X, y, Xv, yv = data[di]
             before = snap()
             np.random.rand(2)                      # the global generator moves between calls
-            if kind == "fit":
+            if kind == "scorew":
+                fd = last_fit[w]
+                pv = provs[fd]
+                nu = pv.num_units if pv is not None else data[fd][0].shape[0]
+                rr = np.random.RandomState(c["seed"] + 97 * ci)
+                world = [int(v) for v in rr.randint(0, 2, size=nu)]
+                if all(world):
+                    world[int(rr.randint(0, nu))] = 0
+                m = c["methods"][w]
+
+                def call(obj):
+                    try:
+                        return np.asarray(obj.score(Xv, yv, metadata=meta_v[di], world=list(world)), dtype=float).tobytes()
+                    except Exception as e:  # noqa -- scoring a partial world may be unsupported on a path: then it must be so for a fresh object too
+                        return "raised:" + type(e).__name__
+                r1 = call(objs[w])
+                if m != "montecarlo":
+                    if call(objs[w]) != r1:
+                        checks["repeat_equal"] = False
+                    fresh = ShapleyImportance(utility=make_util(make_model()), **kws[m])
+                    fresh.fit(data[fd][0], data[fd][1], metadata=meta[fd], provenance=provs[fd])
+                    if call(fresh) != r1:
+                        checks["no_leak_from_other_calls"] = False
+                n_world[0] += 1
+            elif kind == "fit":
                 objs[w].fit(X, y, metadata=meta[di], provenance=provs[di])
                 last_fit[w] = di
             else:
@@ -127,8 +181,9 @@ def run_impl(c):
                     s2 = np.asarray(objs[w].score(Xv, yv, metadata=meta_v[di]), dtype=float)
                     if s1.tobytes() != s2.tobytes():
                         checks["repeat_equal"] = False
-                    # a fresh object given the same last fit and the same score arguments
-                    fresh = ShapleyImportance(utility=util, **kws[m])
+                    # a fresh object -- with a FRESH utility and model, built the same way -- given the same last fit and the
+                    # same score arguments: nothing remembered by the shared utility, its model or the object may matter
+                    fresh = ShapleyImportance(utility=make_util(make_model()), **kws[m])
                     fd = last_fit[w]
                     fresh.fit(data[fd][0], data[fd][1], metadata=meta[fd], provenance=provs[fd])
                     s3 = np.asarray(fresh.score(Xv, yv, metadata=meta_v[di]), dtype=float)
@@ -138,7 +193,7 @@ def run_impl(c):
                 checks["inputs_unchanged"] = False
             if any(k.endswith("_") and not k.startswith("_") for k in vars(model)):
                 checks["model_never_fitted"] = False
-    return {"checks": checks, "nobj": len(objs), "refit": len([1 for k, w, d in c["calls"] if k == "fit"]) > len(set(w for k, w, d in c["calls"] if k == "fit"))}
+    return {"checks": checks, "nobj": len(objs), "world_calls": n_world[0], "refit": len([1 for k, w, d in c["calls"] if k == "fit"]) > len(set(w for k, w, d in c["calls"] if k == "fit"))}
 
 
 def emit(c, o):
@@ -152,8 +207,9 @@ def nontrivial(c, o):
 def distribution(cases, outs):
     from collections import Counter
     failed = Counter(k for o in outs if isinstance(o, dict) and "checks" in o for k, v in o["checks"].items() if not v)
-    return {"methods": dict(Counter(m for c in cases for m in c["methods"])), "models": dict(Counter(c["model"] for c in cases)),
+    return {"methods": dict(Counter(m for c in cases for m in c["methods"])), "models": dict(Counter(c["model"] for c in cases)), "utilities": dict(Counter(c.get("utility", "accuracy") for c in cases)),
             "calls": dict(Counter(k for c in cases for k, _, _ in c["calls"])), "failed_checks": dict(failed),
+            "score_calls_with_partial_world": sum(o.get("world_calls", 0) for o in outs if isinstance(o, dict)),
             "exceptions": dict(Counter(o["exc"] for o in outs if isinstance(o, dict) and "exc" in o))}
 
 
